@@ -212,15 +212,15 @@ fn structured_nets() -> Vec<(String, Net)> {
     for deg in 0..=8usize {
         // out-star and in-star of degree `deg` with isolated vertices before and after
         let n = deg + 3;
-        out.push((format!("out_star{}", deg), Net { n, edges: (0..deg).map(|k| (1, 2 + k, 10.0 + k as f64)).collect() }));
-        out.push((format!("in_star{}", deg), Net { n, edges: (0..deg).map(|k| (2 + k, 1, 10.0 + k as f64)).collect() }));
+        out.push((format!("out_star{}", deg), Net { n, edges: (0..deg).map(|k| (1, 2 + k, 10.0 + k as f64)).collect(), xy: None }));
+        out.push((format!("in_star{}", deg), Net { n, edges: (0..deg).map(|k| (2 + k, 1, 10.0 + k as f64)).collect(), xy: None }));
         // hub with parallel edges and self loops: degree deg in both directions at vertex 0
         let mut e = vec![];
         for k in 0..deg {
             e.push((0, k % 3, 1.5 + k as f64));
             e.push((k % 3, 0, 2.5 + k as f64));
         }
-        out.push((format!("hub{}", deg), Net { n: 3, edges: e }));
+        out.push((format!("hub{}", deg), Net { n: 3, edges: e, xy: None }));
     }
     out
 }
